@@ -800,6 +800,43 @@ func c18TypeRepo(p *an.Prog, r *an.R) {
 		r.Check(ok, "C18.R7", "search.(*typeRepoSearcher).eval/replacement#"+itoa(nRepl)+"/only-type-repo-nodes", rs.Pos(), "a node is replaced only when it is type:repo", "eval replaces a query node that is not known to be a type:repo node: type:file / type:filename sub-queries (or other atoms) are turned into repository sets")
 	}
 	r.Floor("C18.R7.replacements", 1, nRepl)
+	// ... and only by what listing this very node's child gave: every way to a replacement passes the List call
+	isListLoc := func(k an.Loc) bool {
+		hit := false
+		an.Inspect(g.Node(k), false, func(m ast.Node) bool {
+			if c, ok := m.(*ast.CallExpr); ok && len(c.Args) == 3 {
+				if f := an.Callee(info, c); f != nil && f.Name() == "List" {
+					hit = true
+				}
+			}
+			// the listing may sit in a helper of the package
+			if c, ok := m.(*ast.CallExpr); ok && !hit {
+				if hd := p.Decl(an.Callee(info, c)); hd != nil && hd.Pkg == d.Pkg && hd.Decl.Body != nil {
+					ast.Inspect(hd.Decl.Body, func(x ast.Node) bool {
+						if c2, ok := x.(*ast.CallExpr); ok && len(c2.Args) == 3 {
+							if f := an.Callee(info, c2); f != nil && f.Name() == "List" {
+								hit = true
+							}
+						}
+						return !hit
+					})
+				}
+			}
+			return true
+		})
+		return hit
+	}
+	nr := 0
+	for _, l := range g.Locs(func(n ast.Node) bool { _, ok := n.(*ast.ReturnStmt); return ok }) {
+		rs := g.Node(l).(*ast.ReturnStmt)
+		if len(rs.Results) != 1 || isIdentOf(info, rs.Results[0], qp) || info.Types[rs.Results[0]].IsNil() {
+			continue
+		}
+		nr++
+		bypass := g.Reach(g.Entry(), false, &an.Search{Target: func(k an.Loc) bool { return k == l }, Cut: isListLoc})
+		r.Check(!bypass, "C18.R7", "search.(*typeRepoSearcher).eval/replacement#"+itoa(nr)+"/computed-by-listing-this-node", rs.Pos(), "the replacement is reached only through the List call for this node's child",
+			"a type:repo node can be replaced without listing its child (a remembered/shared result is returned): two different sub-queries can get the same repository set, so pre-evaluation adds and drops results")
+	}
 	// the List call lists rq.Child
 	nList := 0
 	ast.Inspect(lit.Body, func(n ast.Node) bool {
